@@ -71,6 +71,39 @@ func (g *G) aliasingSeq() []Cmd {
 	return []Cmd{c("SET", k1, "v"), c("MSET", k2, "p", k1, "q", k3, "r"), c("APPEND", k2, long), c("APPEND", k1, long), c("MGET", k3, k2, k1)}
 }
 
+// swapSeq returns a read, a change that leaves the size of the value as it was (one element out, another in), and the
+// same read again with a count that covers the whole value: anything remembered about the value between two commands
+// (a member list, a position, a length) and judged fresh by its size is stale by then.
+func (g *G) swapSeq(family string) []Cmd {
+	k := g.Key() + ":sw"
+	switch family {
+	case FSet:
+		out := []Cmd{c("DEL", k), c("SADD", k, "a", "b", "c"), c("SRANDMEMBER", k, "5"), c("SRANDMEMBER", k)}
+		switch g.R.Intn(3) {
+		case 0:
+			out = append(out, c("SREM", k, "a"), c("SADD", k, "d"))
+		case 1:
+			out = append(out, c("SMOVE", k, k+"2", "b"), c("SADD", k, "e"))
+		default:
+			out = append(out, c("SREM", k, "c", "b"), c("SADD", k, "x", "y"))
+		}
+		return append(out, c("SRANDMEMBER", k, "10"), c("SRANDMEMBER", k, "-6"), c("SPOP", k, "10"), c("SCARD", k))
+	case FHash:
+		return []Cmd{c("DEL", k), c("HSET", k, "f", "1", "g", "2"), c("HRANDFIELD", k, "5", "WITHVALUES"), c("HKEYS", k), c("HDEL", k, "f"), c("HSET", k, "h", "3"),
+			c("HRANDFIELD", k, "5", "WITHVALUES"), c("HRANDFIELD", k, "-4"), c("HKEYS", k), c("HVALS", k), c("HLEN", k)}
+	case FList:
+		return []Cmd{c("DEL", k), c("RPUSH", k, "a", "b", "c", "d"), c("LINDEX", k, "2"), c("LPOS", k, "c"), c("LPOP", k), c("RPUSH", k, "e"), c("LINDEX", k, "2"), c("LINDEX", k, "-1"),
+			c("LPOS", k, "c"), c("RPOP", k), c("LPUSH", k, "z"), c("LINDEX", k, "1"), c("LRANGE", k, "0", "-1"), c("LLEN", k)}
+	case FZSet:
+		return []Cmd{c("DEL", k), c("ZADD", k, "1", "a", "2", "b", "3", "c"), c("ZRANGE", k, "0", "-1"), c("ZRANK", k, "c"), c("ZREM", k, "a"), c("ZADD", k, "0", "z"),
+			c("ZRANGE", k, "0", "-1", "WITHSCORES"), c("ZRANK", k, "c"), c("ZRANK", k, "z"), c("ZADD", k, "5", "b"), c("ZRANGE", k, "-2", "-1"), c("ZRANK", k, "b")}
+	case FStream:
+		return []Cmd{c("DEL", k), c("XADD", k, "5-1", "f", "v"), c("XADD", k, "5-2", "f", "w"), c("XRANGE", k, "-", "+"), c("XADD", k, "MAXLEN", "2", "6-0", "g", "x"), c("XRANGE", k, "-", "+"),
+			c("XRANGE", k, "5", "5"), c("XRANGE", k, "6", "+"), c("XADD", k, "MAXLEN", "2", "6-1", "g", "y"), c("XRANGE", k, "-", "6")}
+	}
+	return []Cmd{c("SET", k, "abcd"), c("GET", k), c("STRLEN", k), c("SETRANGE", k, "0", "wxyz"), c("GET", k), c("GETRANGE", k, "1", "2"), c("SET", k, "12"), c("INCR", k), c("SET", k, "99"), c("GET", k), c("STRLEN", k)}
+}
+
 // errorEcho returns a command that is refused with a message likely to quote one of its arguments.
 func (g *G) errorEcho() Cmd {
 	x := lineBreakers[g.R.Intn(len(lineBreakers))]
@@ -879,6 +912,10 @@ func Program(r *rand.Rand, family string, maxSteps int) []Cmd {
 		fam := family
 		if family == FMixed && r.Intn(16) == 0 {
 			prog = append(prog, g.errorEcho())
+			continue
+		}
+		if family != FCluster && family != FMixed && r.Intn(40) == 0 {
+			prog = append(prog, g.swapSeq(family)...)
 			continue
 		}
 		if family != FCluster && len(g.Keys) > 0 && r.Intn(24) == 0 {
